@@ -12,6 +12,63 @@ CLAIMED = {
                 "numpy's civil-date-to-tick mapping (validated by Coq-evaluated correspondence); binary64 rounding sampled, not proved",
         "technique": "Coq proof over source-regenerated real-number model + Interval; correspondence via vm_compute",
     },
+    "C09": {
+        "text": "Coq theorems (no axioms) over a hand-written executable model of Tle._checksum and the constructor order, for lines of ANY length: "
+                "accepted iff the last character is the digit of (digit sum + number of '-') mod 10 of the rest; any single digit replaced by a "
+                "different digit (check digit included) is rejected; any replacement changing the weight mod 10 is rejected; both lines must pass; "
+                "parsing is reached only through an accepted checksum. The model is tied to tlefile.py by an exhaustive sweep per TLE of all "
+                "2x69 positions x 95 printable replacements, evaluated inside Coq (vm_compute) and on the implementation (lines, files, streams)",
+        "design_ref": "DESIGN.md 5/C09",
+        "note": "trusted: Coq kernel; hand-written model (correspondence-checked every run); domain 7-bit ASCII (Python isdigit/int on non-ASCII digits not modelled)",
+        "technique": "Coq proof by induction over an executable Gallina model; exhaustive per-TLE correspondence via vm_compute",
+    },
+    "C02": {
+        "text": "Coq theorems (no axioms) for every well-formed field record of the standard TLE column layout (a printer written from the format "
+                "definition): the model of Tle.__init__/_parse_tle decodes the printed lines to exactly the values the columns denote (strings and "
+                "integers exactly, each float as exact sign/digits/implied point/signed exponent), the epoch is exactly 1 January of the %y-pivoted "
+                "year plus (day-1) days in whole microseconds, line1/line2 are the stripped inputs, printed sets pass the checksum, every decimal "
+                "has mantissa < 2^53 and |power of ten| <= 22",
+        "design_ref": "DESIGN.md 5/C02",
+        "note": "trusted: Coq kernel; hand-written model tied to tlefile.py by the Coq-evaluated correspondence on generated sets (premise wf/encode "
+                "re-checked per input). Validated, not proved: CPython float() correct rounding (bit-exact hex), eccentricity within 1 ulp, the timedelta "
+                "float path reaching the exact microsecond, file/StringIO readers. Years 57-68 follow %y and are not judged",
+        "technique": "Coq proof of decode∘encode = values over an executable Gallina model and a literature printer; correspondence by vm_compute "
+                     "against the implementation (float.hex(), integer microseconds) plus an independent column-table oracle",
+    },
+    "C04": {
+        "text": "Coq theorems over the real-number model of Orbital.get_lonlatalt, geoloc.get_lonlatalt, astronomy.observer_position and utc2local "
+                "regenerated from source on every run (geodetic loop unrolled per exit path): longitude in (-180,180] and latitude in [-90,90] for all "
+                "inputs; on EVERY exit path, from the exit test alone, the WGS-84 + GMST reconstruction of (lon,lat,alt) equals (A/XKMPER) x position "
+                "within A*2e-12 km per component (Lipschitz bounds by MVT), with A/XKMPER-1 < 3.2e-7 inside the property's 2e-6; observer_position is "
+                "exactly the WGS-84 geodetic->ECI map with velocity = earth-rotation x position; method and module function are the same real function; "
+                "local time = UTC + lon/15 h",
+        "design_ref": "DESIGN.md 5/C04",
+        "note": "trusted: Coq kernel, stdlib real axioms (+ classic/funext via Coquelicot, Uint63/float primitives via Interval), translator (self-checked "
+                "each run: binary64 DAG evaluation and Coq-Interval point evaluation against the interpreter). Paths beyond 6 loop iterations are outside "
+                "the model (the correspondence run reports any input needing them). Binary64 rounding, incl. near the polar axis, sampled not proved",
+        "technique": "Coq proof over source-regenerated real-number model (symbolic tracing with path enumeration), Coquelicot MVT + Interval; oracle vs independent WGS-84/IAU-82 code",
+    },
+    "C05": {
+        "text": "Coq theorems over the regenerated real-number model of Orbital.get_observer_look and the module function: both are the core formula "
+                "applied to the observer-position and GMST kernels (by conversion); elevation = asin(up-component/range) in the observer's WGS-84 "
+                "east-north-up frame, the clips being the identity over the reals (Cauchy-Schwarz); elevation in [-90,90] and the asin argument in "
+                "[-1,1] for every input; azimuth is the clockwise-from-north angle in [0,2pi) (module: any direction with a horizontal component; "
+                "method: north component non-zero); a satellite on the observer's geodetic normal is at elevation exactly 90",
+        "design_ref": "DESIGN.md 5/C05",
+        "note": "trusted: Coq kernel, stdlib real axioms, translator (self-checked each run). 1e-4 deg accuracy, finiteness in binary64 and the 5e-3 deg "
+                "method/module agreement are sampled against an independent ENU computation (incl. the exact sub-satellite point, poles, date line, "
+                "antipode, geostationary altitudes). The method's exact-zero north component (division by zero) is not constructed",
+        "technique": "Coq proof over source-regenerated real-number model; atan2/asin library lemmas; oracle vs independent ENU code",
+    },
+    "C20": {
+        "text": "PARTIAL. Coq theorems over the regenerated model of kep2xyz/get_position: |position| = radius, <position,velocity> = radius*rdot, "
+                "|velocity|^2 = rdot^2 + rfdot^2, r x v = radius*rfdot*(sin i sin O, -sin i cos O, cos i) (orbital plane has the model's inclination and "
+                "node), unit conversion of the normalised output. The other clauses (velocity = d position/dt within 0.15 %, perigee/apogee band, "
+                "inclination within 0.05 deg of the TLE, energy within 1 %, orbit summary) are facts about the SGP4 theory and are checked by sampling",
+        "design_ref": "DESIGN.md 5/C20",
+        "note": "trusted: Coq kernel, stdlib real axioms, translator (self-checked each run). Sampled clauses are not proved; say so in evidence.assumptions",
+        "technique": "Coq proof (ring with trigonometric identities) over source-regenerated model; finite-difference and node-scan oracle on the implementation",
+    },
 }
 
 _PENDING = "model and theorems not built yet in this round; not claimed on sampling alone (see DESIGN.md 10)"
